@@ -96,3 +96,9 @@ claim("C41", "constant/config agreement: per-function table of RoundingMode cons
       "Decides the rounding-direction clause only: payout computations (calculate_amount_owed, the only payout source of redeem / "
       "get_redemption_value) construct only round-down modes; WithdrawStrategy::Rounded built inside pools rounds down; only contribute may "
       "round up. No arithmetic clause is decided.")
+
+claim("C48", "result provenance (MIR return-place definitions + guard dominance) and literal strict flags",
+      "Decides: each verify*/verify_and_recover* primitive yields true/Some only from the library verifier's success (is_ok of verify_ecdsa / "
+      "verify_strict, Ok arm of recover_ecdsa, BLST_SUCCESS arm of Signature::verify/aggregate_verify), with message/key/signature operands "
+      "originating from the function's own parameters; strict flags (verify_strict, sig_groupcheck/pk_validate = true, key validation in "
+      "aggregate) and the ciphersuite constant are pinned; every other path yields false/None. The cryptography is trusted.")
